@@ -229,16 +229,17 @@ def params : Ty → Option (List Ty) :=
   query (fun | .fn ps _ => some ps | _ => none)
     (fun acc cur => if acc.length != cur.length then none else some (List.zipWith conjoin acc cur))
 
-/-- `mut_element_type`: as written, the fold over a union is seeded with `element_type()` (sic) of
-    the first member and continues with `mut_element_type` of the others. -/
-def mutElementType (t : Ty) : Option Ty :=
+/-- `mut_element_type`: the type read through `*x` (join of the members' contents) -/
+def mutElementType : Ty → Option Ty := query (fun | .cell e => some e | _ => none) joinO
+
+/-- `mut_assign_type`: the type a value must match to be stored whatever member cell `x` is
+    (meet of the members' contents, folded from `any`) -/
+def mutAssignType (t : Ty) : Option Ty :=
   match t with
   | .cell e => some e
-  | .multi (m :: ms) => do
-    let first ← elementType m
-    ms.foldlM (fun acc t => do
-      let c ← (match t with | .cell e => some e | _ => none)
-      some (concat acc c)) first
+  | .multi ms => ms.foldlM (fun acc m => match m with
+      | .cell e => some (conjoin acc e)
+      | _ => none) .any
   | _ => none
 
 def isFunction : Ty → Bool
